@@ -44,6 +44,10 @@ theorem deliver_receipts (env : Env) (c : Chain) (now : UInt64) (m : Msg) :
     | sendPacket p ok => obtain ⟨_, _, _, _, he⟩ := sendPacket_ok hh; subst he; exact Or.inl rfl
     | updateClient chain h root signer ok =>
       obtain ⟨cls, he⟩ := updateClient_ok hh; subst he; exact Or.inl rfl
+    | toggleClient chain cl =>
+      obtain ⟨cls, he⟩ := toggleClient_ok (by simpa [handle] using hh); subst he; exact Or.inl rfl
+    | upgradeClient chain cl =>
+      obtain ⟨cls, he⟩ := upgradeClient_ok (by simpa [handle] using hh); subst he; exact Or.inl rfl
     | createClient chain cl => simp only [handle] at hh; injection hh with hh; subst hh; exact Or.inl rfl
     | registerRelayer r => simp only [handle] at hh; injection hh with hh; subst hh; exact Or.inl rfl
     | restart => simp only [handle] at hh; injection hh with hh; subst hh; exact Or.inl rfl
@@ -77,6 +81,8 @@ theorem recv_rejected_of_receipt (env : Env) (c : Chain) (now : UInt64) (m : Msg
     | acknowledgement packet ack proof h signer o => simp [recvKeyOf] at hm
     | sendPacket p ok => simp [recvKeyOf] at hm
     | updateClient chain h root signer ok => simp [recvKeyOf] at hm
+    | toggleClient chain cl => simp [recvKeyOf] at hm
+    | upgradeClient chain cl => simp [recvKeyOf] at hm
     | createClient chain cl => simp [recvKeyOf] at hm
     | registerRelayer r => simp [recvKeyOf] at hm
     | restart => simp [recvKeyOf] at hm
@@ -132,6 +138,8 @@ theorem acceptedCount_bound (env : Env) (k : Bytes) (c : Chain) (ms : List (UInt
           | acknowledgement packet ack proof h signer o => simp [recvKeyOf] at hkey
           | sendPacket p ok => simp [recvKeyOf] at hkey
           | updateClient chain h root signer ok => simp [recvKeyOf] at hkey
+          | toggleClient chain cl => simp [recvKeyOf] at hkey
+          | upgradeClient chain cl => simp [recvKeyOf] at hkey
           | createClient chain cl => simp [recvKeyOf] at hkey
           | registerRelayer r => simp [recvKeyOf] at hkey
           | restart => simp [recvKeyOf] at hkey
@@ -183,6 +191,8 @@ theorem receipt_after_accept (env : Env) (c : Chain) (ms : List (UInt64 × Msg))
         | acknowledgement packet ack proof h signer o => simp [recvKeyOf] at hkey
         | sendPacket p ok => simp [recvKeyOf] at hkey
         | updateClient chain h root signer ok => simp [recvKeyOf] at hkey
+        | toggleClient chain cl => simp [recvKeyOf] at hkey
+        | upgradeClient chain cl => simp [recvKeyOf] at hkey
         | createClient chain cl => simp [recvKeyOf] at hkey
         | registerRelayer r => simp [recvKeyOf] at hkey
         | restart => simp [recvKeyOf] at hkey
@@ -228,6 +238,55 @@ theorem replay_rejected_after_restart (env : Env) (c : Chain) (ms ms2 : List (UI
       ((run env (run env c ms).1 ((t, .restart) :: ms2)).1, .err) :=
   replay_rejected_later env c ms ((t, .restart) :: ms2) k hacc m' now' hm'
 
+/-! ### client lifecycle -/
+/-- messages that concern the client / relayer tables (and the restart) -/
+def isClientOp : Msg → Bool
+  | .updateClient _ _ _ _ _ => true
+  | .createClient _ _ => true
+  | .toggleClient _ _ => true
+  | .upgradeClient _ _ => true
+  | .registerRelayer _ => true
+  | .restart => true
+  | _ => false
+
+/-- **client_ops_preserve_packet_state**: creating, updating, upgrading or toggling (light client ↔ TSS) a client,
+registering a relayer and restarting never touch receipts, commitments, acknowledgements, send sequences or the
+contract log — accepted or rejected. What a lifecycle operation on a CLIENT does to packet state on the real chain must
+therefore be nothing (`C01:client-op-moved-packet-state`). -/
+theorem client_ops_preserve_packet_state (env : Env) (c : Chain) (now : UInt64) (m : Msg) (hm : isClientOp m = true) :
+    (deliver env c now m).1.receipts = c.receipts ∧ (deliver env c now m).1.commits = c.commits ∧
+    (deliver env c now m).1.acks = c.acks ∧ (deliver env c now m).1.nextSeq = c.nextSeq ∧
+    (deliver env c now m).1.evm = c.evm ∧ (deliver env c now m).1.ackWrites = c.ackWrites ∧
+    (deliver env c now m).1.name = c.name := by
+  rcases deliver_cases env c now m with ⟨c', hh, hd⟩ | ⟨e, _, hd⟩
+  · rw [hd]
+    cases m with
+    | recvPacket packet proof h signer cb => simp [isClientOp] at hm
+    | acknowledgement packet ack proof h signer o => simp [isClientOp] at hm
+    | sendPacket p ok => simp [isClientOp] at hm
+    | updateClient chain h root signer ok =>
+      obtain ⟨cls, he⟩ := updateClient_ok hh; subst he; exact ⟨rfl, rfl, rfl, rfl, rfl, rfl, rfl⟩
+    | toggleClient chain cl =>
+      obtain ⟨cls, he⟩ := toggleClient_ok (by simpa [handle] using hh); subst he; exact ⟨rfl, rfl, rfl, rfl, rfl, rfl, rfl⟩
+    | upgradeClient chain cl =>
+      obtain ⟨cls, he⟩ := upgradeClient_ok (by simpa [handle] using hh); subst he; exact ⟨rfl, rfl, rfl, rfl, rfl, rfl, rfl⟩
+    | createClient chain cl =>
+      simp only [handle] at hh; injection hh with hh; subst hh; exact ⟨rfl, rfl, rfl, rfl, rfl, rfl, rfl⟩
+    | registerRelayer r =>
+      simp only [handle] at hh; injection hh with hh; subst hh; exact ⟨rfl, rfl, rfl, rfl, rfl, rfl, rfl⟩
+    | restart => simp only [handle] at hh; injection hh with hh; subst hh; exact ⟨rfl, rfl, rfl, rfl, rfl, rfl, rfl⟩
+  · rw [hd]; exact ⟨rfl, rfl, rfl, rfl, rfl, rfl, rfl⟩
+
+/-- exactly-once across a client toggle: a receive accepted under the old client (say a Tendermint light client) is
+refused — unchanged — when it is delivered again under the new one (say TSS, signed by the TSS address), after any
+further history. `Msg.toggleClient` is one of the messages the history theorems quantify over. -/
+theorem replay_rejected_after_toggle (env : Env) (c : Chain) (ms ms2 : List (UInt64 × Msg)) (t : UInt64) (chain : Bytes)
+    (cl : Client) (k : Bytes) (hacc : 0 < (((run env c ms).2.zip ms).filter (acceptedRecvOf env k)).length)
+    (m' : Msg) (now' : UInt64) (hm' : recvKeyOf env m' = some k) :
+    deliver env (run env (run env c ms).1 ((t, .toggleClient chain cl) :: ms2)).1 now' m' =
+      ((run env (run env c ms).1 ((t, .toggleClient chain cl) :: ms2)).1, .err) :=
+  replay_rejected_later env c ms ((t, .toggleClient chain cl) :: ms2) k hacc m' now' hm'
+
 /-! ### effects -/
 def cbCount (k : Bytes) (c : Chain) : Nat := c.evm.count (.recvCallback k)
 
@@ -269,6 +328,8 @@ theorem deliver_cbCount (env : Env) (c : Chain) (now : UInt64) (m : Msg) (k : By
     | sendPacket p ok =>
       obtain ⟨_, _, _, _, he⟩ := sendPacket_ok hh; subst he; left; simp [cbCount]
     | updateClient chain h root signer ok => obtain ⟨cls, he⟩ := updateClient_ok hh; subst he; left; rfl
+    | toggleClient chain cl => obtain ⟨cls, he⟩ := toggleClient_ok (by simpa [handle] using hh); subst he; left; rfl
+    | upgradeClient chain cl => obtain ⟨cls, he⟩ := upgradeClient_ok (by simpa [handle] using hh); subst he; left; rfl
     | createClient chain cl => simp only [handle] at hh; injection hh with hh; subst hh; left; rfl
     | registerRelayer r => simp only [handle] at hh; injection hh with hh; subst hh; left; rfl
     | restart => simp only [handle] at hh; injection hh with hh; subst hh; left; rfl
